@@ -45,8 +45,9 @@ type val struct {
 }
 
 type epoch struct {
-	id   int
-	cond string
+	id    int
+	alloc string // upper bound of the refs stored in heap arrays first read in this epoch
+	cond  string
 	a, b *epoch // merge when a != nil
 }
 
@@ -112,6 +113,7 @@ type loopInfo struct {
 	invs    []*Clause
 	decs    []*Clause
 	frames  []*Clause
+	hasFrame bool
 	iter    string
 	frameObjs []string
 }
@@ -169,6 +171,7 @@ type FnVC struct {
 	strConsts map[string]bool
 	mode     string
 	retTerms []string
+	pendingRefBound [][2]string
 	ftParams []string
 }
 
@@ -369,7 +372,7 @@ func (vc *FnVC) heapAt(name string, ep *epoch) string {
 	var t string
 	if ep.a == nil {
 		t = vc.declare(q(key), srt)
-		vc.heapTyping(name, t)
+		vc.heapTyping(name, t, ep.alloc)
 	} else {
 		a, b := vc.heapAt(name, ep.a), vc.heapAt(name, ep.b)
 		if a == b {
@@ -398,14 +401,29 @@ func (vc *FnVC) hset(st *state, name, term string) {
 
 func (vc *FnVC) havocHeap(st *state, name string) {
 	st.heap[name] = vc.freshConst("hv:"+name, vc.hsort(name))
-	vc.heapTyping(name, st.heap[name])
+	vc.heapTyping(name, st.heap[name], "")
+	vc.pendingRefBound = append(vc.pendingRefBound, [2]string{name, st.heap[name]})
+}
+
+// boundPendingRefs: the heap arrays havocked since the last call hold only refs allocated so far (<= alloc).
+func (vc *FnVC) boundPendingRefs(alloc string) {
+	for _, p := range vc.pendingRefBound {
+		if d, ok := vc.eng.heapDescOf(p[0]); ok && d.kind == "elem" && isRefType(d.t1) {
+			vc.decl = append(vc.decl, "")
+			vc.emit("(assert (forall ((r!h Int)) (! (<= (select %s r!h) %s) :pattern ((select %s r!h)))))", p[1], alloc, p[1])
+		}
+	}
+	vc.pendingRefBound = nil
 }
 
 // heapTyping asserts that every cell of a freshly declared heap array holds a well-typed value.
-func (vc *FnVC) heapTyping(name, term string) {
+func (vc *FnVC) heapTyping(name, term, alloc string) {
 	d, ok := vc.eng.heapDescOf(name)
 	if !ok {
 		return
+	}
+	if alloc != "" && d.kind == "elem" && isRefType(d.t1) {
+		vc.decl = append(vc.decl, fmt.Sprintf("(assert (forall ((r!h Int)) (! (<= (select %s r!h) %s) :pattern ((select %s r!h)))))", term, alloc, term))
 	}
 	switch d.kind {
 	case "elem":
@@ -422,7 +440,11 @@ func (vc *FnVC) heapTyping(name, term string) {
 }
 
 func (vc *FnVC) havocAll(st *state) {
+	na := vc.freshConst("alloc", "Int")
+	vc.assume("true", fmt.Sprintf("(>= %s %s)", na, st.alloc))
+	st.alloc = na
 	st.ep = vc.newEpoch()
+	st.ep.alloc = na
 	st.heap = map[string]string{}
 }
 
